@@ -538,6 +538,37 @@ def unit_independence(spec, st, obs, rs, rng):
     return [], 1
 
 
+def whole_hours_in_days(spec, st, obs, rs, rng):
+    """a duration that is a whole number of hours gives the same results written in hours or in days (12 h = 0.5 day,
+    24 h = 1 day, 48 h = 2 day: exact in binary floating point, so no rounding excuse at the ceiling)"""
+    import copy
+    from harness import kcalc
+    if st != "ok":
+        return [], 0
+    servers, _, _ = reachable(spec)
+    jobs = sorted(j for j, o in spec["jobs"].items() if o["server"] in servers and o["data_stored"]["m"] >= 0)
+    if not jobs:
+        return [], 0
+    j = rng.choice(jobs)
+    h = rng.choice([12, 24, 48])
+    sp_h, sp_d = copy.deepcopy(spec), copy.deepcopy(spec)
+    sp_h["jobs"][j]["request_duration"] = {"m": float(h), "u": "hour"}
+    sp_d["jobs"][j]["request_duration"] = {"m": h / 24, "u": "day"}
+    st1, o1, _ = kcalc.real_outcome(sp_h)
+    st2, o2, _ = kcalc.real_outcome(sp_d)
+    if st1 != "ok" or st2 != "ok":
+        if st1 != st2 and "neg-storage" not in (o1 if st1 == "err" else "", o2 if st2 == "err" else ""):
+            return [viol("C10", "outcome-differs:request_duration-in-days", f"{j}.request_duration {h} hour: {st1} {o1 if st1 == 'err' else ''}; {h / 24} day: {st2} {o2 if st2 == 'err' else ''}")], 1
+        return [], 1
+    sens = ceil_sensitive(sp_h, o1) | ceil_sensitive(sp_d, o2)
+    if sens:
+        sens |= {"__system__"}
+    why = obs_diff(drop_objects(o1, sens), drop_objects(o2, sens))
+    if why:
+        return [viol("C10", "value-depends-on-unit:request_duration-in-days", f"{j}.request_duration written {h} hour or {h / 24} day: {why}")], 1
+    return [], 1
+
+
 def unit_of_an_edit(spec, st, obs, rs, rng):
     """an input edited in place to the same *number* in another unit (150 MB -> 150 kB) is an edit like any other:
     the live model then equals the model built with the new value; and edited to the same *quantity* written in
